@@ -199,10 +199,10 @@ func JoinTables(rt *rapid.T) []model.Stmt {
 		create.SQL = RenderStmt(Plain(), create)
 		out = append(out, create)
 		nrows := rapid.SampledFrom([]int{0, 1, 2, 3, 4, 6, 9, 12}).Draw(rt, "nrows")
-		if rapid.IntRange(0, 11).Draw(rt, "bigside") == 0 {
+		if rapid.IntRange(0, 59).Draw(rt, "bigside") == 31 {
 			// now and then one input is large enough for whatever an executor does differently for
 			// inputs beyond a few dozen rows
-			nrows = rapid.SampledFrom([]int{31, 32, 33, 63, 64, 65, 100, 130}).Draw(rt, "nrows_big")
+			nrows = rapid.SampledFrom([]int{32, 33, 63, 64, 65, 100}).Draw(rt, "nrows_big")
 		}
 		if nrows > 0 {
 			s := model.Stmt{Kind: "insert", Table: name}
@@ -213,6 +213,11 @@ func JoinTables(rt *rapid.T) []model.Stmt {
 					case c.Type == model.TInt:
 						// few distinct keys (they repeat, rows stay unmatched); 1/10/11 next to the
 						// strings "01"/"1"/"0" give composite keys that coincide when printed side by side
+						if nrows > 12 && rapid.Bool().Draw(rt, "widekey") {
+							// (a large input has more distinct keys, or every join over it explodes)
+							row = append(row, model.Int(int64(rapid.IntRange(0, nrows/3).Draw(rt, "kvw"))))
+							continue
+						}
 						row = append(row, model.Int(rapid.SampledFrom([]int64{0, 1, 2, 3, 1, 10, 11, 2}).Draw(rt, "kv")))
 					case c.Name == "s":
 						row = append(row, model.Str(rapid.SampledFrom([]string{"1", "01", "0", "10", "", "a", "1 "}).Draw(rt, "ssv")))
